@@ -52,7 +52,7 @@ fn is_aggro(e: &Edge) -> bool {
 }
 
 /// per-tree oracle + dump; returns the dump line (None if the tree is too big to dump)
-fn check_tree(run: &mut Run, rng: &mut Rng, tree: &Tree, profile: &Profile, known: &mut HashSet<Bucket>, label: &str, dump: bool) -> Option<String> {
+fn check_tree(run: &mut Run, rng: &mut Rng, tree: &Tree, profile: &Profile, known: &mut HashSet<Bucket>, label: &str, dump: bool, sampled: bool) -> Option<String> {
     let walker = tree.walker();
     let nodes = tree.all();
     let n = nodes.len();
@@ -138,7 +138,7 @@ fn check_tree(run: &mut Run, rng: &mut Rng, tree: &Tree, profile: &Profile, know
                     run.fail("sampled-node-not-one-child", &at, "1", &format!("{}", children.len()));
                 } else if !menu.contains(&kid_edges[0]) {
                     run.fail("sampled-child-off-menu", &at, &format!("{menu:?}"), &format!("{:?}", kid_edges[0]));
-                } else if node.player() != Player::chance() && i % 3 == 0 {
+                } else if sampled && node.player() != Player::chance() && i % 3 == 0 {
                     // the opponent's child is the one Profile::explore_one draws (its PRNG is
                     // seeded by (epoch, bucket), so the draw can be replayed on the same profile)
                     run.spec_checked += 1;
@@ -215,6 +215,9 @@ fn check_tree(run: &mut Run, rng: &mut Rng, tree: &Tree, profile: &Profile, know
             _ => "opponent",
         };
         run.count(&format!("node-{kind}"));
+        if hist[i].len() > MAX_DEPTH_SUBGAME && matches!(node.player(), Player(Turn::Choice(_))) {
+            run.count(if sampled { "decision-node-deeper-than-16-edges(sampled)" } else { "decision-node-deeper-than-16-edges(directed)" });
+        }
         run.distinct(&(label, i));
     }
     for (bucket, menu) in fresh {
@@ -236,12 +239,69 @@ fn check_tree(run: &mut Run, rng: &mut Rng, tree: &Tree, profile: &Profile, know
     if dump { Some(line) } else { None }
 }
 
+/// replica of Blueprint::tree / Blueprint::sample on the real tree primitives (Tree::plant / fork,
+/// Node::realize, Encoder::branches, Profile::witness / explore_all / explore_any), with the
+/// opponent's branch chosen by a script instead of explore_one, so that long hands (lines deeper
+/// than the 16-edge window) are built deliberately.
+fn directed_tree(profile: &mut Profile, encoder: &Encoder, style: u64, rng: &mut Rng) -> Tree {
+    fn pick(branches: &Vec<robopoker::mccfr::tree::Branch>, style: u64, depth: usize, rng: &mut Rng) -> usize {
+        let edges: Vec<Edge> = branches.iter().map(|b| *b.edge()).collect();
+        let raises: Vec<usize> = (0..edges.len()).filter(|&i| matches!(edges[i], Edge::Raise(_))).collect();
+        let passive = edges.iter().position(|e| matches!(e, Edge::Call)).or(edges.iter().position(|e| matches!(e, Edge::Check)));
+        let smallest = raises.iter().copied().min_by(|&a, &b| {
+            let (x, y) = match (edges[a], edges[b]) { (Edge::Raise(x), Edge::Raise(y)) => (x, y), _ => unreachable!() };
+            (x.0 as i32 * y.1 as i32).cmp(&(y.0 as i32 * x.1 as i32))
+        });
+        let want_raise = match style {
+            0 => true,                       // always the smallest raise while one is offered
+            1 => rng.chance(7, 10),          // mostly raising
+            2 => false,                      // always call / check: the traverser does the raising
+            3 => depth % 2 == 0,             // alternate
+            _ => rng.chance(1, 2),
+        };
+        match (want_raise, smallest, passive) {
+            (true, Some(i), _) => i,
+            (_, _, Some(i)) => i,
+            (_, Some(i), None) => i,
+            _ => 0,
+        }
+    }
+    fn sample(profile: &mut Profile, encoder: &Encoder, node: &robopoker::mccfr::node::Node, style: u64, depth: usize, rng: &mut Rng) -> Vec<robopoker::mccfr::tree::Branch> {
+        let walker = profile.walker();
+        let mut branches = encoder.branches(node);
+        match (branches.len(), node.player()) {
+            (0, _) => vec![],
+            (_, p) if p == Player::chance() => profile.explore_any(branches, node),
+            (_, p) if p != walker => {
+                profile.witness(node, &branches);
+                let i = pick(&branches, style, depth, rng);
+                vec![branches.remove(i)]
+            }
+            _ => {
+                profile.witness(node, &branches);
+                profile.explore_all(branches, node)
+            }
+        }
+    }
+    let mut tree = Tree::empty(profile.walker());
+    let mut todo: Vec<(robopoker::mccfr::tree::Branch, usize)> = {
+        let ref node = tree.plant(encoder.seed());
+        sample(profile, encoder, node, style, 0, rng).into_iter().map(|b| (b, 1)).collect()
+    };
+    while let Some((branch, depth)) = todo.pop() {
+        let ref node = tree.fork(branch);
+        let kids = sample(profile, encoder, node, style, depth, rng);
+        todo.extend(kids.into_iter().map(|b| (b, depth + 1)));
+    }
+    tree
+}
+
 fn main() {
     let a = args();
     let mut rng = Rng::new(a.seed);
     let mut run = Run::new(&a.out);
     quiet_panics();
-    let (epochs, batch, max_dump, freq_nodes, freq_draws) = if a.thorough() { (40usize, 6usize, 8000usize, 40usize, 4000usize) } else { (14, 4, 5000, 16, 1500) };
+    let (epochs, batch, max_dump, freq_nodes, freq_draws, directed_styles, max_dump_directed) = if a.thorough() { (40usize, 6usize, 8000usize, 40usize, 4000usize, 5u64, 12000usize) } else { (14, 4, 5000, 16, 1500, 3u64, 7000usize) };
     run.rule = format!(
         "{epochs} training epochs x {batch} trees from the real Blueprint::tree (empty profile at start, stand-in abstraction, traverser alternating, profile updated as Blueprint::solve does); every node of every tree goes through the clause-by-clause oracle; trees up to {max_dump} nodes are dumped for the Lean acceptor; opponent sampling: {freq_nodes} opponent nodes (menus of >= 3 edges preferred) x 2 policies (trained when non-uniform; skewed by verif_set_memory) x {freq_draws} epochs through the real explore_one, per-edge binomial 6 sigma against Profile::weight; actionize's f32 product checked for every pot <= 2*STACK x every grid odds. distinct = (tree, node)"
     );
@@ -273,7 +333,7 @@ fn main() {
             let n = tree.all().len();
             let label = format!("epoch {epoch} tree {tree_no}");
             let dump = n <= max_dump;
-            let line = { check_tree(&mut run, &mut rng, &tree, &profile.read().unwrap(), &mut known, &label, dump) };
+            let line = { check_tree(&mut run, &mut rng, &tree, &profile.read().unwrap(), &mut known, &label, dump, true) };
             if let Some(line) = line {
                 run.line(&line, "accept");
                 run.count("tree-dumped");
@@ -382,6 +442,79 @@ fn main() {
             p.add_policy(&bucket, cf.policy());
         }
         p.next();
+    }
+    // ---- directed long hands: deep decision nodes (> 16 edges) are built on purpose
+    let base_epochs = { profile.read().unwrap().epochs() };
+    for style in 0..directed_styles {
+        for parity in 0..2usize {
+            let tree = {
+                let mut p = profile.write().unwrap();
+                p.verif_set_epochs(base_epochs + parity);
+                directed_tree(&mut p, &Encoder::default(), style, &mut rng)
+            };
+            let n = tree.all().len();
+            let label = format!("directed tree style {style} walker P{}", (base_epochs + parity) % 2);
+            let line = { check_tree(&mut run, &mut rng, &tree, &profile.read().unwrap(), &mut known, &label, n <= max_dump_directed, false) };
+            if let Some(line) = line {
+                run.line(&line, "accept");
+                run.count("directed-tree-dumped");
+            }
+            run.count(&format!("directed-tree-nodes<={}", match n { 0..=999 => 999, 1000..=4999 => 4999, 5000..=19999 => 19999, _ => 999999 }));
+        }
+    }
+    // ---- every training phase: Discount / Explore / Prune boundaries, both traversers; in the
+    // Prune phase additionally with traverser actions whose stored regret is at or below REGRET_MIN
+    let (d, pr) = (robopoker::verif::CFR_DISCOUNT_PHASE, robopoker::verif::CFR_PRUNNING_PHASE);
+    for e in [d - 1, d, d + 1, pr - 1, pr, pr + 1, pr + 2] {
+        let force = rng.below(52) as u8;
+        { profile.write().unwrap().verif_set_epochs(e); }
+        robopoker::verif::set_draw_index(Some(force));
+        let tree = bp.verif_tree();
+        robopoker::verif::set_draw_index(None);
+        let n = tree.all().len();
+        let label = format!("phase epoch {e} forced deal {force}");
+        let line = { check_tree(&mut run, &mut rng, &tree, &profile.read().unwrap(), &mut known, &label, n <= max_dump / 2, true) };
+        if let Some(line) = line {
+            run.line(&line, "accept");
+        }
+        run.count(&format!("phase-tree epoch={}", if e < d { "discount" } else if e < pr { "explore" } else { "prune" }));
+        if e >= pr {
+            // floor regrets of some traverser information sets of this very tree, then sample it again
+            let walker = tree.walker();
+            let nodes = tree.all();
+            let wn: Vec<usize> = (0..nodes.len()).filter(|&i| nodes[i].player() == walker && !nodes[i].children().is_empty()).collect();
+            if !wn.is_empty() {
+                let mut picks = vec![wn[0]];
+                for _ in 0..4 {
+                    picks.push(wn[rng.below(wn.len() as u64) as usize]);
+                }
+                let mut p = profile.write().unwrap();
+                for (k, &i) in picks.iter().enumerate() {
+                    let bucket = nodes[i].bucket().clone();
+                    let menu: Vec<Edge> = Vec::<Edge>::from(bucket.2.clone());
+                    for (j, edge) in menu.iter().enumerate() {
+                        // k = 0 (root-most): first and last action; k = 1: every action; else one action
+                        let hit = match k { 0 => j == 0 || j + 1 == menu.len(), 1 => true, _ => j == k % menu.len() };
+                        if hit {
+                            let (_, pol) = p.verif_memory(&bucket, edge).expect("witnessed");
+                            let regret = if j % 2 == 0 { robopoker::verif::REGRET_MIN } else { -1.0e6 };
+                            p.verif_set_memory(&bucket, edge, regret, pol);
+                        }
+                    }
+                }
+                drop(p);
+                robopoker::verif::set_draw_index(Some(force));
+                let tree2 = bp.verif_tree();
+                robopoker::verif::set_draw_index(None);
+                let n2 = tree2.all().len();
+                let label = format!("phase epoch {e} forced deal {force}, regrets of {} traverser information sets at or below REGRET_MIN", picks.len());
+                let line = { check_tree(&mut run, &mut rng, &tree2, &profile.read().unwrap(), &mut known, &label, n2 <= max_dump / 2, true) };
+                if let Some(line) = line {
+                    run.line(&line, "accept");
+                }
+                run.count("phase-tree prune+floored-regrets");
+            }
+        }
     }
     run.notes.push("deals come from the code's own thread_rng (every third tree: forced draw index from VERIF_SEED); each dumped tree is self-contained in ops.txt".into());
     // truncate long samples (tree dumps) so that the evidence stays readable
